@@ -102,10 +102,13 @@ class Probes:
         pr = self
 
         def get_esf(self, obs_name, kinematics, *args, use_raw=True, force_local=False):
-            if not force_local and obs_name == self.obs_name:
-                key = tuple(list(kinematics.values()) + [not use_raw and self.runner.configs.TMC != 0])
-                pr.counts["cache_hit" if key in self.cache else "cache_miss"] += 1
-            return pr.orig_get(self, obs_name, kinematics, *args, use_raw=use_raw, force_local=force_local)
+            # hit or miss is read off the cache itself (whatever its keys look like): a hit returns an object the cache already held
+            mine = not force_local and obs_name == self.obs_name
+            held = {id(v) for v in self.cache.values()} if mine else ()
+            obj = pr.orig_get(self, obs_name, kinematics, *args, use_raw=use_raw, force_local=force_local)
+            if mine:
+                pr.counts["cache_hit" if id(obj) in held else "cache_miss"] += 1
+            return obj
 
         def drop_cache(self):
             if self.cache:
